@@ -23,6 +23,8 @@ def run_one(pid, tier, only_key=None):
     try:
         mod = importlib.import_module(RULES[pid])
         mod.run(rep, tier)
+        if tier == "thorough" and not only_key and not os.environ.get("XV_NO_EVIDENCE"):
+            sensitivity(rep, pid)
         return rep.finish()
     except AnalysisError as e:
         print("ANALYSIS-ERROR property=%s %s" % (pid, e))
@@ -31,6 +33,24 @@ def run_one(pid, tier, only_key=None):
         print("ANALYSIS-ERROR property=%s internal error in the analyser:" % pid)
         traceback.print_exc(file=sys.stdout)
         return 2
+
+
+def sensitivity(rep, pid):
+    """thorough tier: apply this property's seeded mutants (xv/selftest.py) to scratch copies and record how many the check
+    detects.  A missed mutant lowers the reported sensitivity; it never turns into a violation."""
+    from concurrent.futures import ThreadPoolExecutor
+    from .selftest import CASES, run_case
+    cases = [c for c in CASES if c[1] == pid]
+    if not cases:
+        return
+    with ThreadPoolExecutor(max_workers=8) as ex:
+        res = list(ex.map(run_case, cases))
+    fire = [r for r in res if r["kind"] == "fire" and not r["status"].startswith("skipped") and not r["status"].startswith("tolerated")]
+    silent = [r for r in res if r["kind"] == "silent" and not r["status"].startswith("skipped")]
+    rep.extra["mutation_sensitivity"] = {
+        "must_fire": len(fire), "detected": sum(1 for r in fire if r["status"].startswith("detected")),
+        "must_stay_silent": len(silent), "stayed_silent": sum(1 for r in silent if r["status"] == "silent"),
+        "cases": [{"id": r["id"], "kind": r["kind"], "status": r["status"], "first_key": (r.get("violations") or [None])[0]} for r in res]}
 
 
 def main(argv):
